@@ -178,6 +178,11 @@ func c03Child() int {
 		point("request.start")
 		got := st.do(r)
 		mark(fmt.Sprintf("GROW %d %d", i, c03LogSize(dir)-before))
+		if int64(i) == fullAt && os.Getenv("VERIF_C03_FULL_LIFT") != "" {
+			// Space is made: the following requests find a writable store again.
+			_ = syscall.Setrlimit(syscall.RLIMIT_FSIZE, &syscall.Rlimit{Cur: ^uint64(0), Max: ^uint64(0)})
+			mark(fmt.Sprintf("LIFTED %d", i))
+		}
 		for j, g := range got {
 			if g {
 				mark(fmt.Sprintf("ACK %d %d", i, r.Keys[j]))
@@ -205,6 +210,39 @@ func c03LogSize(dir string) int64 {
 		return nil
 	})
 	return max
+}
+
+// sigStorageFull runs two-request histories (a request served while the storage is full at every listed offset of what
+// it appends to the value log, then, with space made again, a conflicting request in the same process) and reports the
+// histories in which both were signed. Used by C01 and C02: a history with a storage fault is still a history.
+func sigStorageFull(tier string, hists [][]HReq) (runs int, bad []string, err error) {
+	root := rig.Scratch("sigfull")
+	defer os.RemoveAll(root)
+	for hi, h := range hists {
+		out, err := runChild(h, filepath.Join(root, fmt.Sprintf("clean-%d", hi)), 0)
+		if err != nil {
+			return runs, bad, err
+		}
+		clean := parseMarks(out)
+		g := clean.grow[0]
+		for d := int64(0); d < g; d++ {
+			if !(tier == "thorough" || d == 0 || d == g/2 || d == g-1 || d%32 == 0) {
+				continue
+			}
+			dir := filepath.Join(root, fmt.Sprintf("full-%d-%d", hi, d))
+			out, err := runChild(h, dir, 0, "VERIF_C03_FULL_AT=0", fmt.Sprintf("VERIF_C03_FULL_DELTA=%d", d), "VERIF_C03_FULL_LIFT=1", "VERIF_C03_NOCLOSE=1")
+			if err != nil {
+				return runs, bad, err
+			}
+			m := parseMarks(out)
+			runs++
+			if m.acked[fmt.Sprintf("0 %d", h[0].Keys[0])] && m.acked[fmt.Sprintf("1 %d", h[1].Keys[0])] {
+				bad = append(bad, fmt.Sprintf("%s served while the storage was full (the value log could grow by %d more bytes) was signed, and so was the conflicting %s once space had been made", h[0], d, h[1]))
+			}
+			_ = os.RemoveAll(dir)
+		}
+	}
+	return runs, bad, nil
 }
 
 type c03Marks struct {
